@@ -26,3 +26,24 @@ na(
     "exactness, truncation bounds); no shape of the code implies them, and the only structural "
     "fragment (array filters return new lists) is the no-mutation rule claimed under C17",
 )
+
+claim(
+    "C23",
+    "SIB+FLOW",
+    "static: sibling equivalence of the caching mixin + parameter-binding/flow rules on its AST",
+    "Clauses only (the behaviour over request histories is not decided): (1) load/load_async and "
+    "_check_cache/_check_cache_async are one program modulo await; (2) the value of "
+    "cache_key(name, context, kwargs) is the only cache key and the requested name is what reaches "
+    "the wrapped loader, with globals/context/kwargs forwarded; (3) _check_cache* reads/writes the "
+    "cache only under its key, stores and returns exactly what load_func() returned or returns the "
+    "object read, consults is_up_to_date* iff auto_reload, and gives a hit exactly the current "
+    "request's globals; (4) a namespaced key contains both namespace and name, keyword before "
+    "context; (5) every Caching* class takes load* from the mixin; (6) every uptodate kind a wrapped "
+    "loader stores is consumable by both the sync and the async freshness check (interleaving). "
+    "Each is a necessary condition of 'same name, source and behaviour as the non-caching loader, "
+    "namespaces never substituted, changed source picked up, request globals apply'.",
+    "Not decided: LRU order/eviction interplay and reload timing over histories (value level). "
+    "Shape rules are anchored on CachingLoaderMixin's current structure; a restructured but "
+    "equivalent _check_cache would be reported for review.",
+    "DESIGN.md section 5 C23",
+)
